@@ -309,6 +309,15 @@ Proof. intros HI Hx Hb. destruct (Inv_alloc _ _ _ _ HI Hx Hb) as (H1 & _ & H3 & 
                   o_box x' = o_box x /\ (inD m' o = true -> inD m o = true);
     (* a value destruction that starts inside the call is complete when the call returns *)
     of_nodropping : ex <> Some o -> o_vst x' = VDropping -> o_vst x = VDropping;
+    (* a value under construction (new_cyclic) is only touched by its constructor *)
+    of_uninit : ex <> Some o -> o_vst x = VUninit -> o_box x = BAlloc ->
+                o_vst x' = VUninit /\ o_box x' = BAlloc /\ o_fields x' = o_fields x /\
+                o_wfields x' = o_wfields x /\ o_cleaner x' = o_cleaner x;
+    of_nouninit : o_vst x' = VUninit -> o_vst x = VUninit;
+    (* the strong handles of a member of the dying set that is not yet dropped only change in
+       its own drop glue *)
+    of_dead : inD m o = true -> ex <> Some o -> o_vst x' <> VDropped ->
+              o_fields x' = o_fields x /\ o_cleaner x' = o_cleaner x;
     (* no list mark appears on an existing object (a freed box keeps its last mark) *)
     of_unmarked : marked x = false -> o_box x' <> BFreed -> marked x' = false;
     of_prot : ex <> Some o -> o_box x = BAlloc -> protected E m o x ->
@@ -318,7 +327,11 @@ Proof. intros HI Hx Hb. destruct (Inv_alloc _ _ _ _ HI Hx Hb) as (H1 & _ & H3 & 
 
   Record Fr (E : list id) (ex : option id) (m m' : machine) : Prop := {
     fr_coll : st_collecting m' = st_collecting m;
+    (* the parameter stack of the running new_cyclic closures is restored *)
+    fr_wp : wparam m' = wparam m;
     fr_dead : forall o, inD m o = true -> inD m' o = true;
+    (* while a collection runs nothing is added to the dying set (collections do not nest) *)
+    fr_deadc : st_collecting m = true -> forall o, inD m' o = true -> inD m o = true;
     fr_obj : forall o x, get m o = Some x -> exists x', get m' o = Some x' /\ ObjFr E ex m m' o x x';
     (* (weak-ptrs) the members of the dying set not yet marked dropped can only become fewer *)
     fr_undropped : k_weak K = true -> forall o x', get m' o = Some x' -> inD m' o = true -> o_box x' = BAlloc ->
@@ -344,7 +357,8 @@ Proof. intros HI Hx Hb. destruct (Inv_alloc _ _ _ _ HI Hx Hb) as (H1 & _ & H3 & 
     match r with
     | RSlot i => (i < nslots)%nat
     | RField p j => exists x, get m p = Some x /\ (j < length (o_fields x))%nat /\ o_box x <> BNotYet /\
-                               o_vst x <> VDropping
+                               o_vst x <> VDropping /\ o_vst x <> VUninit /\
+                               (inD m p = true -> o_vst x = VDropped)
     end /\ forall t, read_loc r m = Some t -> own_ok m t.
 
   Definition self_ok (E : list id) (self : option id) (cs : list cmd) (m : machine) : Prop :=
